@@ -22,7 +22,7 @@ type c33Case struct {
 
 func c33(c *vc.Ctx) {
 	depth := vc.Pick(c, 3, 4)
-	bashDepth := depth
+	bashDepth := vc.Pick(c, 2, 4) // quick: the depth-3 histories are replayed in bash by the thorough tier only
 	if s := os.Getenv("VERIF_C33_DEPTH"); s != "" { // development aid
 		fmt.Sscan(s, &depth)
 		bashDepth = depth
@@ -32,11 +32,13 @@ func c33(c *vc.Ctx) {
 	}
 	c.Level = "model_checking"
 	c.Reruns = 1
-	c.Rule = fmt.Sprintf("explicit-state breadth-first exploration to depth %d of the histories over %d array operations on one variable `a` (list below), starting from an unset variable on a fresh interp.Runner. A state is the history; states are merged when the %d observations made through the shell (\"${a[@]}\", \"${!a[@]}\", ${#a[@]}, \"${a[*]}\", ${a}, ${#a}, ${a[i]} and ${#a[i]} and [[ -v a[i] ]] for i in -3..7, \"${a[@]:o}\" and \"${a[@]:o:l}\" for o,l in -2..3) AND the representation of Runner.Vars[\"a\"] (Set, Kind, len(List), List nil, spare capacity, Indexes contents and nil-ness) are equal; successors = replay of the first (shortest, then smallest) history reaching the state on a fresh Runner plus one operation, in four contexts (top level; inside a function with `local a` while a global a=(G H) must survive; last operation inside a function on the global; last operation inside a subshell, observed there and again in the parent). Every transition's operation statuses and observations must equal the Go map reference model; the reference model must equal bash 5.2 on every history of length <= %d (contexts top, func, gfunc). A state reached by a diverging transition is not expanded. Operations: %s", depth, len(c33Ops), len(c33Items), bashDepth, c33OpTexts())
+	c.Rule = fmt.Sprintf("explicit-state breadth-first exploration to depth %d of the histories over %d array operations on one variable `a` (listed below), starting from an unset variable on a fresh interp.Runner. A state is a history; states are merged when the %d core observations made through the shell itself (\"${a[@]}\", \"${!a[@]}\", ${#a[@]}, \"${a[*]}\", ${a}, ${#a}, ${a[i]} and ${#a[i]} for i in -3..7, \"${a[@]:o}\" for o in -2..3 and \"${a[@]:o:l}\" for o in -2..3, l in 0..3; each a field list or a diagnostic) AND the representation of Runner.Vars[\"a\"] after the run (Set, Kind, len(List), List nil, spare capacity, Indexes contents and nil-ness; Indexes must be non-negative, strictly increasing and as long as List) are equal. Successors: the first (shortest, then smallest) history reaching the state is replayed on a fresh Runner plus one operation, in four contexts: top level; func = a=(G H); f() { local a=(); ops; observe; }; f; observe (the global must survive; histories that leave the local without a value before the last operation are skipped and counted); gfunc = last operation inside a function on the global, observed inside and after; sub = last operation inside a subshell, observed there and again in the parent (which must be as before the operation). Per discovered state three more observation families are run on its history: \"${a[@]:o:l}\" with l in -2..-1 (%d items), [[ -v a[i] ]] for i in -3..7, and \"${!a[@]}\" alone (it is not executed in the other contexts while the model's variable has no value, because it makes the interpreter exit). Every operation status (zero/non-zero) and observation must equal the Go map reference model (c33_model.go); the reference model must equal bash 5.2 on every explored history of length <= %d (all contexts except sub), run at the real top level of a bash script, one process per batch. A state reached by a transition that diverges at top level is not expanded. Operations: %s", depth, len(c33Ops), len(c33Items), len(c33NegLenItems), bashDepth, c33OpTexts())
 	c.Assumptions = []string{
 		"bash 5.2.15 is the oracle for the reference model; the subshell context is not replayed in bash (that a subshell sees the effect and its parent does not is taken from the definition of a subshell)",
-		"a diagnostic on stderr is the only way bash shows a bad subscript in ${a[i]}; for [[ -v a[i] ]] only the status is compared",
+		"a diagnostic on stderr is the only way bash shows a bad subscript in ${a[i]}: 'error' for an observation means 'printed a diagnostic' in both shells; for [[ -v a[i] ]] only the status is compared; for operations only zero/non-zero status",
+		"negative subscripts applied to a variable that is not an indexed array (unset, declared only, scalar) are not compared (bash answers with a mix of diagnostics and zeros that has no map meaning)",
 		"values contain no IFS or glob characters, so quoted observations are enough",
+		"the three per-state observation families are assumed to depend only on the merged state (core observations + representation)",
 	}
 
 	type node struct{ hist []int }
@@ -303,9 +305,9 @@ func c33Compare(name string, ops []c33Op, ctx string, pts []c33State, want, got 
 	}
 	class := c33Class(ops, ctx, pts, want, got, diffs)
 	return &vc.Fail{
-		Key:   fmt.Sprintf("%s @%s%s#%d want=%s got=%s ndiff=%d", name, kind, word, obs, want[pos], c33At(got, pos), len(diffs)),
-		Msg:   fmt.Sprintf("%s: %d of %d observations differ from the reference model (= bash); first: %s %s at observation point %d: model %q, sh %q", name, len(diffs), len(want), kind, word, obs, want[pos], c33At(got, pos)),
-		Class: class,
+		Key:    fmt.Sprintf("%s @%s%s#%d want=%s got=%s ndiff=%d", name, kind, word, obs, want[pos], c33At(got, pos), len(diffs)),
+		Msg:    fmt.Sprintf("%s: %d of %d observations differ from the reference model (= bash); first: %s %s at observation point %d: model %q, sh %q", name, len(diffs), len(want), kind, word, obs, want[pos], c33At(got, pos)),
+		Class:  class,
 		Detail: map[string]any{"want": strings.Join(want, ";"), "got": strings.Join(got, ";")},
 	}
 }
